@@ -2,12 +2,15 @@
   C05 — Inbound SMTP DATA is decoded transparently and framed only by CR LF . CR LF.
 
   Model: `Nq.SmtpIn.dblast` (the five-state automaton of qmail-smtpd.c `blast()`), tied to the
-  source by the exhaustive differential harness `harness/c05_blast.c`.
+  source by the exhaustive differential harness `harness/c05_blast.c` AND by translation: the body of `blast()` is
+  extracted from the current qmail-smtpd.c into `Nq.Gen.SmtpdBlast` (a `Nq.CMini.Stmt`) on every run, and the
+  `C05_source_*` theorems at the end show that its meaning is this automaton.
 -/
 import Nq.Lemmas.SmtpFraming
 import Nq.Lemmas.SmtpSim
 import Nq.Lemmas.HopCount
 import Nq.Lemmas.SmtpIO
+import Nq.Lemmas.SmtpdSrc.Main
 
 namespace Nq.Props.C05
 open Nq Nq.SmtpIn Nq.SmtpRef Nq.SmtpOut Nq.Wire Nq.Lemmas
@@ -201,5 +204,66 @@ example : IWF { size := 4, n := 3, p := 1, data := [120], src := [13, 10, 46], r
 example : sblast (istart 4 [120, 13, 10, 46, 13, 10] [2, 0]) = .died := by decide
 
 end chunking
+
+/-! ### The text of `blast()` as it is in qmail-smtpd.c now
+
+`Nq.Gen.SmtpdBlast.stmts` is regenerated from the clang AST of the source on every run (tools/extractors/c05.py);
+`Nq.CMini.run` gives it its meaning.  `Nq.SmtpdSrc.body` is the loop body after `substdio_get(&ssin,&ch,1)`. -/
+section source
+open Nq.CMini Nq.SmtpdSrc
+
+/-- Shape of the extracted function: the six `int` locals in declaration order with their constant values before the
+loop, and three top-level statements in the loop body after the read (the header block, the switch, `put(&ch)`). -/
+theorem C05_source_shape :
+    Nq.Gen.SmtpdBlast.varNames = ["state", "flaginheader", "pos", "flagmaybex", "flagmaybey", "flagmaybez"] ∧
+    Nq.Gen.SmtpdBlast.initEnv = enc .s1 {} ∧ Nq.Gen.SmtpdBlast.stmts.length = 3 := by decide
+
+/-- **One iteration of the extracted loop body is one step of the automaton**: on the locals that hold the automaton
+state `s` and the scanner state `h` (any hop count, `pos ≤ 9` - an invariant of `hstep`), for every byte, the new
+locals are those of `(dstep s c).1` and `hstep h c`, the bytes handed to `put` are `dstep`'s output, `++*hops` is
+executed as often as `hstep` counts, and control leaves by `return` / `straynewline()` / the next iteration exactly
+when `dstep` says done / stray / data.  (Kernel evaluation of the extracted AST over the whole finite table, composed
+by the independence lemma `Nq.CMini.run_set`.) -/
+theorem C05_source_step (s : DSt) (h : HSt) (c : Byte) (hp : h.pos ≤ 9) :
+    (let r := iter body (enc s h) c.toNat; (r.env, r.evs, cls r.ctl)) = expect s h c :=
+  iter_eq s h c hp
+
+/-- the invariant used above is one: the scanner's `pos` starts at 0 and never exceeds 9 -/
+theorem C05_source_pos_inv (h : HSt) (c : Byte) (hp : h.pos ≤ 9) : (hstep h c).pos ≤ 9 := hstep_pos_le h c hp
+
+/-- **The whole loop of the extracted source decodes every stream as the RFC 5321 reference decoder does**: started
+from the constants the source assigns before the loop, over any input, it returns / calls `straynewline()` / runs out
+of input exactly when `rfcDecode` accepts / finds a bare LF / finds no terminator, having handed to `put` exactly the
+decoded message and leaving exactly the bytes after the terminator unread. -/
+theorem C05_source_spec (inp : Bytes) :
+    (outView (loop body Nq.Gen.SmtpdBlast.initEnv (inp.map (fun b => b.toNat)))).1 = rfcDecode inp := by
+  have h0 : Nq.Gen.SmtpdBlast.initEnv = enc .s1 {} := by decide
+  rw [h0, loop_eq inp .s1 {} (by decide)]
+  simp only [mrun_fst]
+  exact C05_spec inp
+
+/-- ... and counts hops as the documented rule does: when the terminator is found, the number of `++*hops` executed is
+the number of Received/Delivered header lines among the bytes consumed. -/
+theorem C05_source_hops (inp body' rest : Bytes) (h : dblast inp = .accepted body' rest) :
+    ∃ consumed, inp = consumed ++ rest ∧
+      (outView (loop body Nq.Gen.SmtpdBlast.initEnv (inp.map (fun b => b.toNat)))).2 = Nq.HopCount.hopSpec consumed := by
+  have h0 : Nq.Gen.SmtpdBlast.initEnv = enc .s1 {} := by decide
+  obtain ⟨consumed, h1, h2⟩ := mrun_snd inp .s1 {} body' rest h
+  refine ⟨consumed, h1, ?_⟩
+  rw [h0, loop_eq inp .s1 {} (by decide), h2]
+  have := C05_hops consumed
+  simp only [hopsOf] at this
+  simpa using this
+
+/-- Non-vacuity: the extracted source run on "a CR LF . . CR LF . CR LF Q": stores "a LF . LF", leaves "Q". -/
+example : outView (loop body Nq.Gen.SmtpdBlast.initEnv [97, 13, 10, 46, 46, 13, 10, 46, 13, 10, 81]) =
+    (.accepted [97, 10, 46, 10] [81], 0) := by decide +kernel
+/-- a bare LF: the extracted source calls `straynewline()` -/
+example : outView (loop body Nq.Gen.SmtpdBlast.initEnv [97, 10]) = (.stray, 0) := by decide +kernel
+/-- "Received: x CR LF CR LF . CR LF": one hop counted by the extracted source -/
+example : (outView (loop body Nq.Gen.SmtpdBlast.initEnv
+    [82, 101, 99, 101, 105, 118, 101, 100, 58, 13, 10, 13, 10, 46, 13, 10])).2 = 1 := by decide +kernel
+
+end source
 
 end Nq.Props.C05
